@@ -146,6 +146,9 @@ class AbstractSpecification(object):
 
     # forwarding to interpreter
     def set_sampling_period(self, sampling_period=int(1), unit='s', tolerance=float(0.1)):
+        # the pastifier needs the period as well: `next` looks one sample ahead
+        self.ast.sampling_period = sampling_period
+        self.ast.sampling_period_unit = unit
         if hasattr(self, 'online_interpreter'):
             if isinstance(self.online_interpreter, DiscreteTimeInterpreter):
                 self.online_interpreter.set_sampling_period(sampling_period, unit, tolerance)
